@@ -222,6 +222,10 @@ def mk_pipeline_sum(name, args=(), params=None):
             lab = ln[:9]
             if lab in avr and len(ln) > 100:
                 rows.setdefault(lab, []).append(ln)
+        # the two result sections agree on which groups there are: every group of the summary has its rows in the table
+        from . import micro as M2
+        for lab in M2.reported(mol):
+            ctx.claim('summary-group-has-determinant-rows', lab in rows, detail='%r is in the summary but has no row in the determinant section' % lab)
         for lab, lns in rows.items():
             g = avr[lab]
             if g.atom.cysteine_bridge:
@@ -260,7 +264,7 @@ def obligations(tier):
         Obligation('O6-add-and-divide', o_add_determinant, code=[G + 'Group.__iadd__', G + 'Group.add_determinant', G + 'Group.__truediv__'],
                    bounds='2+1 determinants, symbolic values and divisor in [1,5]', claim_doc='merge by partner; division scales every field'),
     ]
-    fx = [('nterm_ASP_LYS', ()), ('pep8', ()), ('lig_MTX', ()), ('pair_GLU_ARG_TYR', ()), ('pair_CYS_CYS_bridge', ()), ('complex_MTX', ())]
+    fx = [('nterm_ASP_LYS', ()), ('pep8', ()), ('lig_MTX', ()), ('pair_GLU_ARG_TYR', ()), ('pair_CYS_CYS_bridge', ()), ('complex_MTX', ()), ('complex_MTX^MTX=L', ())]
     if tier == 'thorough':
         fx += [('pair_ASP_ARG', ()), ('pair_LYS_ASP', ()), ('pair_ASP_ASP', ('-d',)), ('lig_KNI', ()), ('cterm_PHE', ()), ('tri_HIS', ()), ('nterm_ASP_LYS', ('-d',))]
     from .micro import BURIED, COUPLED
